@@ -44,6 +44,13 @@ Inductive staged_traces : lay -> list ev -> Prop :=
 Definition traces_disp (l : lay) (tl : list N) (t : list ev) : Prop :=
   exists t1, staged_traces l t1 /\ t = t1 ++ group_trace tl.
 
+(* the same with the executing thread: the staged part is run by the pool (par_iter inside
+   ThreadPool::install), the thread-local part by the thread that called dispatch *)
+Inductive thr := Caller | Pool.
+Definition traces_disp_thr (l : lay) (tl : list N) (t : list (ev * thr)) : Prop :=
+  exists t1, staged_traces l t1 /\
+             t = map (fun e => (e, Pool)) t1 ++ map (fun e => (e, Caller)) (group_trace tl).
+
 (* dispatch_seq: the one sequential trace *)
 Definition trace_seq (l : lay) (tl : list N) : list ev :=
   concat (map (fun st => concat (map group_trace st)) l) ++ group_trace tl.
